@@ -84,6 +84,7 @@ static const WBXMLErrorCodeItem error_table [] = {
     { WBXML_ERROR_NULL_STRING_TABLE,            "No String Table In Document" },
     { WBXML_ERROR_STRING_EXPECTED,              "String Expected" },
     { WBXML_ERROR_STRTBL_LENGTH,                "Bad String Table Length" },
+    { WBXML_ERROR_NESTING_TOO_DEEP,             "Elements are nested too deeply" },
     { WBXML_ERROR_UNKNOWN_ATTR,                 "Unknown Attribute" },
     { WBXML_ERROR_UNKNOWN_ATTR_VALUE,           "Unknown Attribute Value" },
     { WBXML_ERROR_UNKNOWN_EXTENSION_TOKEN,      "Unknown Extension Token" },
